@@ -40,7 +40,9 @@ Print Assumptions C12_passthrough.
 (* A word with variables (have_variables) that is not single-quoted:
    - not force_string: it is exactly one unquoted variable reference and the result is the word
      list looked up for it, verbatim (lookup_var = the referenced definition's resolved words, or
-     the environment word);
+     the environment word; the last argument of lookup_var is the text diff_mode keeps for an
+     unresolved reference: "$name", or "$(name)" where the bare form would read differently, which is
+     why each fragment is handed the fragments that follow it);
    - force_string: the result is exactly ONE double-quoted word without line whose text is the
      concatenation of the literal fragments and of the looked-up words' values joined by one
      blank (or the error of the first failing lookup). *)
@@ -49,12 +51,12 @@ Theorem C12_shape : forall env rec diff chain stop w force frs,
   fragments_of_word w = Ok (force, true, frs) ->
   (force = false ->
      exists v, frs = [FVar v] /\ wq w = QN /\
-               resolve_word env rec diff chain stop w = lookup_var env rec diff chain stop w v)
+               resolve_word env rec diff chain stop w = lookup_var env rec diff chain stop w v (diff_text v []))
   /\ (force = true ->
      resolve_word env rec diff chain stop w =
-       do ts <- mapM (fun f => match f with
+       do ts <- mapM_tl (fun f nx => match f with
                                | FLit v => Ok v
-                               | FVar v => do ws <- lookup_var env rec diff chain stop w v;
+                               | FVar v => do ws <- lookup_var env rec diff chain stop w v (diff_text v nx);
                                            Ok (vjoin_sp (map wv ws))
                                end) frs;
        Ok [mkword (List.concat ts) Q2 0]).
@@ -99,10 +101,10 @@ Print Assumptions C12_terminates.
 (* ---------------------------------------------------------------- environment *)
 (* when the lexical lookup finds something, neither the environment nor diff_mode matter for
    this reference (rec = resolution of the definition found) *)
-Theorem C12_env_shadowed : forall env env' rec diff diff' chain stop w v o ch,
+Theorem C12_env_shadowed : forall env env' rec diff diff' chain stop w v dt dt' o ch,
   chain <> [] ->
   lexical_get (S (length v)) stop chain v true = Ok (Some (o, ch)) ->
-  lookup_var env rec diff chain stop w v = lookup_var env' rec diff' chain stop w v.
+  lookup_var env rec diff chain stop w v dt = lookup_var env' rec diff' chain stop w v dt'.
 Proof. exact lookup_var_env_shadowed. Qed.
 Print Assumptions C12_env_shadowed.
 
